@@ -181,6 +181,24 @@ def check_mesh(ctx, name, mesh, fixed, with_model=True):
             fail("cov_hermitian_in_use", dict(update=k_, defect=r))
         ctx.case((name, "in_use", k_), nontrivial=k_ > 0)
 
+    # the scalar operators in use (with and without terminal sites): Laplacian = divergence o gradient,
+    # area-weighted symmetric, annihilates the constants
+    for fx_ in ((None, fixed) if fixed is not None else (None,)):
+        mo2 = MeshOperators(mesh, SparseSolver.SUPERLU, fixed_sites=fx_, fix_psi=True)
+        mo2.build_operators()
+        mo2.set_link_exponents(rng.normal(size=(E, 2)))
+        Lu = sp.csr_matrix(mo2.mu_laplacian)
+        DG = sp.csr_matrix(mo2.divergence) @ sp.csr_matrix(mo2.mu_gradient)
+        sc_ = float(np.abs(DG).max())
+        r1 = float(np.abs(Lu - DG).max()) / sc_
+        aL = (sp.diags(a) @ Lu).toarray()
+        r2 = float(np.abs(aL - aL.T).max()) / float(np.abs(aL).max())
+        r3 = float(np.abs(Lu @ np.ones(n)).max()) / sc_
+        ctx.tol("operators in use: mu_laplacian = divergence o mu_gradient / symmetric / constants", max(r1, r2, r3), 1e-9)
+        ctx.case((name, "scalar_in_use", fx_ is not None), nontrivial=True)
+        if max(r1, r2, r3) > 1e-9:
+            fail("scalar_laplacian_in_use", dict(with_terminal_sites=fx_ is not None, lap_minus_divgrad=r1, asymmetry=r2, constants=r3))
+
     # ---------------- correspondence with the Lean model --------------------------------------
     if with_model:
         lines = [zoo.mesh_line(mesh)]
